@@ -274,7 +274,7 @@ Section OneChart.
   Proof.
     revert L. induction ss as [|s ss IH]; intros L H; [reflexivity|].
     cbn [forallb] in H. apply andb_true_iff in H. destruct H as [H1 H2].
-    cbn [filter]. destruct s as [tgt sl declared defaults mapping|on_set f e| |on_set f|txt]; cbn [is_list_step lists_steps step_lists]; cbn [is_unknown negb] in H1; try discriminate;
+    cbn [filter]. destruct s as [tgt sl declared defaults mapping|on_set f e| |on_set f|nm le|txt]; cbn [is_list_step lists_steps step_lists]; cbn [is_unknown negb] in H1; try discriminate;
       try (apply IH; exact H2).
     - destruct (cast_step x sl tgt declared defaults mapping) as [g|]; [|reflexivity].
       destruct (set_list tgt g L); [apply IH; exact H2|reflexivity].
@@ -314,7 +314,7 @@ Section OneChart.
   Proof.
     induction l as [|s l IH]; intros L Hc Hs Hnd.
     - exists L. split; [reflexivity|]. split; [reflexivity|]. intro n. cbn. unfold fin. cbn. rewrite option_map_id. reflexivity.
-    - destruct s as [tgt sl declared defaults mapping|on_set f e| |on_set f|txt]; cbn [casts_then_shift] in Hc; try discriminate.
+    - destruct s as [tgt sl declared defaults mapping|on_set f e| |on_set f|nm le|txt]; cbn [casts_then_shift] in Hc; try discriminate.
       + (* SCast *)
         destruct (Hs _ _ _ _ _ (or_introl eq_refl)) as [Hmem [g Hg]].
         cbn [lists_steps step_lists]. rewrite Hg.
@@ -373,7 +373,7 @@ Section OneChart.
     memZ n (flat_map cast_target l) = true -> exists sl decl dfl m, In (SCast n sl decl dfl m) l.
   Proof.
     intro H. apply memZ_In in H. apply in_flat_map in H. destruct H as [s [Hin Hs]].
-    destruct s as [tgt sl decl dfl m|? ? ?| |? ?|?]; cbn [cast_target In] in Hs; try contradiction. destruct Hs as [E|[]]. subst tgt.
+    destruct s as [tgt sl decl dfl m|? ? ?| |? ?|? ?|?]; cbn [cast_target In] in Hs; try contradiction. destruct Hs as [E|[]]. subst tgt.
     do 4 eexists. exact Hin.
   Qed.
 End OneChart.
@@ -405,6 +405,8 @@ Proof.
       * cbn [step_meta] in E1. injection E1 as <-. apply B. exact Hk.
       * cbn [step_meta] in E1. destruct (assocM (on_set, f) M0); [|discriminate].
         destruct (a_raise (x_args x) && negb (truthy m)); [discriminate|]. injection E1 as <-. apply B. exact Hk.
+      * cbn [step_meta] in E1. assert (M1 = M0) as ->; [|apply B; exact Hk].
+        destruct e; try (destruct (eval x _); [|discriminate]); injection E1 as <-; reflexivity.
       * cbn [step_meta] in E1. discriminate.
 Qed.
 
@@ -560,7 +562,7 @@ Proof.
   - (* content lists *)
     intros L cols HL. rewrite forallb_forall in O_content. specialize (O_content _ HL). cbn [fst snd] in O_content.
     apply existsb_exists in O_content. destruct O_content as [s [Hin Hs]].
-    destruct s as [t sl decl dfl m|? ? ?| |? ?|?]; cbn [carries_list] in Hs; try discriminate.
+    destruct s as [t sl decl dfl m|? ? ?| |? ?|? ?|?]; cbn [carries_list] in Hs; try discriminate.
     apply andb_true_iff in Hs; destruct Hs as [Hs Hcols]. apply andb_true_iff in Hs; destruct Hs as [E1 E2].
     apply Z.eqb_eq in E1, E2. subst t sl.
     destruct (cast_step_facts d a sm k src oracle Hsrc Hcomp _ _ _ _ _ Hin (O_cast _ Hin)) as [g [G Gf]].
@@ -598,7 +600,7 @@ Proof.
     rewrite forallb_forall in O_roles. assert (Hr: In r ROLES) by (destruct r; cbn; tauto).
     specialize (O_roles _ Hr). unfold role_okb in O_roles. rewrite Es, Et in O_roles.
     apply existsb_exists in O_roles. destruct O_roles as [s [Hin Hs]].
-    destruct s as [|b f e| | |]; try discriminate. apply andb_true_iff in Hs. destruct Hs as [Hk Hc].
+    destruct s as [|b f e| | | |]; try discriminate. apply andb_true_iff in Hs. destruct Hs as [Hk Hc].
     apply mkey_eqb_eq in Hk. subst key. destruct (Mmap b f e Hin) as [v [V1 V2]].
     rewrite (carries_not_opaque _ _ Hc) in V1. destruct (carries_infix x se e v Hc V1) as [sv [S1 S2]].
     exists sv, v. split; [exact S1|]. split; [exact V2|exact S2].
@@ -670,11 +672,24 @@ Proof.
   cbn [fst snd] in *. subst n2. destruct (n1 =? n)%Z; [split; assumption|exact IH].
 Qed.
 
-Lemma eval_same_meta x x' e :
-  x_args x = x_args x' -> x_set x = x_set x' -> c_meta (x_chart x) = c_meta (x_chart x') -> x_pos x = x_pos x' ->
+Lemma nrows_abs f f' : abs_rows f = abs_rows f' -> nrows f = nrows f'.
+Proof.
+  intro H. unfold nrows. rewrite <- (map_length snd (frows f)), <- (map_length snd (frows f')).
+  change (length (abs_rows f) = length (abs_rows f')). rewrite H. reflexivity.
+Qed.
+
+Lemma eval_same_rows x x' e :
+  x_args x = x_args x' -> x_set x = x_set x' -> same_rows (x_chart x) (x_chart x') -> x_pos x = x_pos x' ->
   eval x e = eval x' e.
 Proof.
-  intros Ha Hs Hm Hp. induction e; cbn [eval]; rewrite ?IHe, ?IHe1, ?IHe2, ?Hs, ?Hm, ?Hp; reflexivity.
+  intros Ha Hs [Hm Hl] Hp.
+  induction e; cbn [eval]; rewrite ?IHe, ?IHe1, ?IHe2, ?IHe3, ?Hs, ?Hm, ?Hp; try reflexivity.
+  - (* ELen *) pose proof (assocZ_same_rows _ _ l Hl) as R.
+    destruct (assocZ l (c_lists (x_chart x))) as [f|], (assocZ l (c_lists (x_chart x'))) as [f'|]; try contradiction;
+      [|reflexivity]. destruct R as [_ R2]. cbn [option_map]. rewrite (nrows_abs _ _ R2). reflexivity.
+  - (* EFirstOffset *) pose proof (assocZ_same_rows _ _ l Hl) as R.
+    destruct (assocZ l (c_lists (x_chart x))) as [f|], (assocZ l (c_lists (x_chart x'))) as [f'|]; try contradiction;
+      [|reflexivity]. destruct R as [R1 R2]. rewrite (col_vals_abs f f' COL_OFFSET R1 R2). reflexivity.
 Qed.
 
 Theorem conv_chart_labels_irrelevant d a sm k c c' oracle :
@@ -685,7 +700,7 @@ Proof.
   assert (Hstep: forall s st, exec_step x s st = exec_step x' s st).
   { intros s st. unfold exec_step.
     assert (E1: step_lists x s (c_lists st) = step_lists x' s (c_lists st)).
-    { destruct s as [t sl decl dfl m|? ? ?| |? ?|?]; cbn [step_lists]; try reflexivity.
+    { destruct s as [t sl decl dfl m|? ? ?| |? ?|? ?|?]; cbn [step_lists]; try reflexivity.
       assert (E: cast_step x sl t decl dfl m = cast_step x' sl t decl dfl m).
       { unfold cast_step. cbn [x_chart x_oracle x_args x x'].
         pose proof (assocZ_same_rows _ _ sl Hl) as R.
@@ -693,9 +708,11 @@ Proof.
         destruct R as [R1 R2]. destruct (resolve_mapping oracle t m); [|reflexivity]. apply cast_abs; assumption. }
       rewrite E. reflexivity. }
     assert (E2: step_meta x s (c_meta st) = step_meta x' s (c_meta st)).
-    { destruct s as [?|b f e| |? ?|?]; cbn [step_meta]; try reflexivity.
+    { destruct s as [?|b f e| |? ?|nm le|?]; cbn [step_meta]; try reflexivity.
       assert (E: meta_value x b f e = meta_value x' b f e).
-      { unfold meta_value. destruct e; try reflexivity; apply eval_same_meta; auto. }
+      { unfold meta_value. destruct e; try reflexivity; apply eval_same_rows; auto; split; assumption. }
+      rewrite E. reflexivity.
+      assert (E: eval x le = eval x' le) by (apply eval_same_rows; auto; split; assumption).
       rewrite E. reflexivity. }
     rewrite E1, E2. reflexivity. }
   intro ss. induction ss as [|s ss IH]; intro st; cbn [exec_steps]; [reflexivity|].
